@@ -1,7 +1,7 @@
 /-
 Model of one connection as a transition system (C02, C10) ← `connection.rs` `RouterHandle::send_request`
-(136-175), `OrphanhoodNotifier` (194-223), `router` (1541-1606), `reader` (1608-1672),
-`alloc_stream_id`/`writer` (1674-1747), `orphaner` (1753-1786), `keepaliver` (1788-1865).
+(136-175), `OrphanhoodNotifier` (194-223), `router` (1541-1619), `reader` (1621-1685),
+`alloc_stream_id`/`writer` (1687-1760), `orphaner` (1766-1799), `keepaliver` (1801-1878).
 
 The reader, writer and orphaner run on ONE task and take the handler-map mutex with `try_lock().unwrap()`
 without holding it across an `.await`; each of their critical sections is therefore one atomic step here.
@@ -13,7 +13,7 @@ Callers run anywhere; their observable steps are
     (a permit) but has not pushed the task yet: the window in which the router may shut down concurrently
     (multi-threaded runtime),
     `push r`      – … the task is pushed. If the router has ended meanwhile, its drain loop (`receiver.close()`,
-    then `recv()` until every outstanding permit is used up, `router` 1604-1615) fails the task with the
+    then `recv()` until every outstanding permit is used up, `router` 1604-1615, after commit 8b0b75c) fails the task with the
     connection's error. (Before /repo commit 8b0b75c the receiver was merely dropped: such a task stayed in the
     dead channel and its caller waited forever — see `Props/C10.lean`, `pushOld` and the example after it.)
     (`cancel` lets a held permit go; in the code there is no await point between obtaining capacity and the push,
